@@ -91,7 +91,18 @@ def run(ctx):
 def validate_chunks(ctx, trace, module="LebTrace", chunk=40000, sigprefix="writer"):
     """Validate a long event file in chunks; on rejection report the event and
     continue after it so that the rest of the trace is still examined."""
-    lines = [l for l in open(trace) if l.strip()]
+    lines = []
+    for l in open(trace):
+        if not l.strip():
+            continue
+        if '"outcome"' in l:
+            # the library call did not return normally: that is data about gimli, not a tool failure
+            e = json.loads(l)
+            if e.get("outcome") in ("panic", "abort", "timeout"):
+                ctx.violation("%s:%s:%s:%s" % (sigprefix, e.get("ev"), e.get("outcome"), e.get("loc", "")),
+                              "%s on value %s did not return normally: %s" % (e.get("ev"), e.get("v"), e.get("msg", "")[:200]), e, e)
+                continue
+        lines.append(l)
     pos = 0
     nchunks = 0
     while pos < len(lines):
